@@ -11,7 +11,7 @@ import tempfile
 
 EXTRA = {'C03-m2': ['C06'], 'C06-m2': ['C04'], 'C04-m2': ['C06'], 'C08-m1': ['C07'], 'C20-m1': ['C18'], 'C20-m2': ['C10'],
          'C16-m1': ['C03'], 'C05-m2': ['C04'], 'C19-m1': ['C04'], 'C02-m1': ['C03'], 'C03-m1': ['C02'], 'C17-m1': ['C02'],
-         'C14-m2': ['C07'], 'C12-m1': ['C13']}
+         'C14-m2': ['C07'], 'C12-m1': ['C13'], 'C01-m5': ['C10', 'C18']}
 ids = sys.argv[1:] or sorted(os.listdir('/verif/seeded'))
 for sid in ids:
     d = os.path.join('/verif/seeded', sid)
